@@ -24,7 +24,8 @@ Record obs := MkObs {
   o_core : ocore;
   o_events : list entry;   (* Invoke / Finish in the order they happened *)
   o_leftover : N;          (* futures / tasks still not done at the end *)
-  o_changed : bool         (* the result differed between its completion and the end of the run *)
+  o_changed : bool;        (* the result differed between its completion and the end of the run *)
+  o_eager : list tid       (* submitted calls that completed before submit returned *)
 }.
 
 (* ---- combinator-level cases (layer 1): a script of chain / gather_futures /
@@ -41,7 +42,8 @@ Record cscript := MkScript {
   sc_ext : nat;                     (* number of externally completed futures *)
   sc_ops : list cop;
   sc_results : list cresult;        (* result of external future i *)
-  sc_sigma : list nat               (* completion order *)
+  sc_sigma : list nat;              (* completion order *)
+  sc_pre : list nat                 (* externals completed before the combinators are applied *)
 }.
 
 Inductive case_C08 :=
@@ -102,7 +104,7 @@ Fixpoint has_imm_exn (f : fld) : bool :=
   match f with
   | Fld _ dfr _ b =>
       match b with
-      | BExn _ => match dfr with None => true | Some _ => false end
+      | BExn _ => match dfr with None => true | Some _ => false end   (* Some _ : any (levels, eager) *)
       | BObj fs => has_imm_exn_fs fs
       | BList _ its => has_imm_exn_its its
       | _ => false
@@ -133,8 +135,44 @@ Definition agree_bs (p : prog) (o : obs) : bool :=
   | _, _ => false
   end.
 
+(* the program with the observed eager completions written into its defer annotations *)
+Definition count_eager (eager : list tid) (p : path) (n : nat) : nat :=
+  (fix go (l fuel : nat) : nat :=
+     match fuel with
+     | O => O
+     | S f => if mem_tid (p, l) eager then S (go (S l) f) else O
+     end) O (S n).
+Fixpoint ann_fld (eager : list tid) (p : path) (f : fld) : fld :=
+  match f with
+  | Fld k dfr nn b =>
+      let p' := p ++ [k] in
+      Fld k (match dfr with Some (n, _) => Some (n, count_eager eager p' n) | None => None end) nn
+          (ann_body eager p' b)
+  end
+with ann_body (eager : list tid) (p : path) (b : body) : body :=
+  match b with
+  | BObj fs => BObj (ann_flds eager p fs)
+  | BList inn its => BList inn (ann_items eager p 0%N its)
+  | _ => b
+  end
+with ann_flds (eager : list tid) (p : path) (fs : flds) : flds :=
+  match fs with FNil => FNil | FCons f r => FCons (ann_fld eager p f) (ann_flds eager p r) end
+with ann_items (eager : list tid) (p : path) (i : N) (its : items) : items :=
+  match its with
+  | INil => INil
+  | ICons it r =>
+      ICons (match it with ItObj fs => ItObj (ann_flds eager (p ++ [i]) fs) | _ => it end)
+            (ann_items eager p (N.succ i) r)
+  end.
+Definition annotate (eager : list tid) (p : prog) : prog :=
+  match eager with
+  | [] => p
+  | _ => match p with Prog m fs => Prog m (ann_flds eager [] fs) end
+  end.
+
 (* outcome of the machine under the observed completion order *)
-Definition agree_run (p : prog) (o : obs) : bool :=
+Definition agree_run (p0 : prog) (o : obs) : bool :=
+  let p := annotate (o_eager o) p0 in
   match run (o_sched o) p with
   | Some s =>
       match pending (ms s), orphans (ms s) with
@@ -239,7 +277,10 @@ Fixpoint run_sigma (sigma : list nat) (results : list cresult) (res : list value
   end.
 
 Definition run_script (sc : cscript) : list (list ostate) * heap :=
-  let h0 := alloc_ext (sc_ext sc) empty_heap in
+  let h00 := alloc_ext (sc_ext sc) empty_heap in
+  let h0 := fold_left (fun h i => complete the_fn the_handler comb_fuel h i
+                                    (result_value [] (nth i (sc_results sc) (CrVal (APlain 0)))))
+                      (sc_pre sc) h00 in
   let '(res, raisedl, h1) := run_ops (sc_ops sc) [] [] h0 in
   let '(snaps, hf) := run_sigma (sc_sigma sc) (sc_results sc) res raisedl h1 in
   (snapshot h1 res raisedl :: snaps, hf).
@@ -298,6 +339,6 @@ Definition agree_C08 (c : case_C08) : bool :=
 (* diagnostics *)
 Definition model_C08 (c : case_C08) :=
   match c with
-  | CaseProg cfg p os => (bs_prog p, map (fun o => run (o_sched o) p) os, [], [])
+  | CaseProg cfg p os => (bs_prog p, map (fun o => run (o_sched o) (annotate (o_eager o) p)) os, [], [])
   | CaseComb sc _ _ => ((None, []), [], fst (run_script sc), swallowed (snd (run_script sc)))
   end.
